@@ -96,7 +96,13 @@ pub fn run<'tcx>(tcx: TyCtxt<'tcx>) -> String {
         }
         fps.push(format!("{}:[\"{:016x}\",{}]", jstr(&key), h, txt.len()));
         let public = !matches!(tcx.def_kind(did), rustc_hir::def::DefKind::Closure) && tcx.visibility(did).is_public();
-        keys.push(format!("{}:[{},{}]", jstr(&tcx.def_path(did).to_string_no_crate_verbose()), jstr(&key), public));
+        let sp = tcx.def_span(did);
+        let sm = tcx.sess.source_map();
+        let lo = sm.lookup_char_pos(body.span.lo());
+        let hi = sm.lookup_char_pos(body.span.hi());
+        let _ = sp;
+        let file = format!("{}", lo.file.name.prefer_local_unconditionally());
+        keys.push(format!("{}:[{},{},{},{},{}]", jstr(&tcx.def_path(did).to_string_no_crate_verbose()), jstr(&key), public, jstr(&file), lo.line, hi.line));
     }
     let adtj: Vec<String> = adts.iter().map(|(k, v)| format!("{}:{}", jstr(k), v)).collect();
     format!("{{\"bodies\":{},\"intoiter_access\":[{}],\"intoiter_structs\":{{{}}},\"fingerprints\":{{{}}},\"bodykeys\":{{{}}}}}", bodies, rows.join(","), adtj.join(","), fps.join(","), keys.join(","))
